@@ -18,3 +18,10 @@ for n, hf, fs in rp.REFRESH_UNITS:
 from contracts import commitpath as _cp
 for kind in ("file-ops", "metadata-only"):
     register(Unit(P, f"ATOMIC-VIS/Transaction.commit-{kind}", _cp.h_tx_commit(kind, False), functions=[f"{_cp.TX}:Transaction.commit"], replay=_cp._replay_tx))
+
+# monotonicity of successive reads: versions only advance (WRITABLE, proved on MetadataManager.commit here) + lemma MONO
+from contracts import commitpath as _cp  # noqa: E402
+from contracts import lemmas as _L  # noqa: E402
+register(Unit(P, "MONO/MetadataManager.commit-local", _cp.h_mm_commit("local"), functions=[f"{_cp.MM}:MetadataManager.commit"], replay=_cp._replay_mm_commit))
+register(Unit(P, "LEMMA/MONO", _L.h_mono, functions=[], replay=None,
+              uses=["WRITABLE:next-version=resolved-version+1(1-only-if-nothing-is-resolvable)", "LIN:the-replaced-pointer-is-the-validated-one(no-write-in-between)"]))
